@@ -18,8 +18,8 @@ Lower(c) == IF c \in 65..90 THEN c + 32 ELSE c
 Left(t, n) == IF n < 0 THEN Err ELSE T(SubSeq(t, 1, Min(n, Len(t))))
 Right(t, n) == IF n < 0 THEN Err ELSE T(SubSeq(t, Len(t) - Min(n, Len(t)) + 1, Len(t)))
 Mid(t, k, n) == IF k < 1 \/ n < 0 THEN Err ELSE T(SubSeq(t, k, Min(k + n - 1, Len(t))))
-Left1(t) == IF t = <<>> THEN Oos ELSE T(<<t[1]>>)
-Right1(t) == IF t = <<>> THEN Oos ELSE T(<<t[Len(t)]>>)
+Left1(t) == Left(t, 1)          \* the count defaults to 1 (also on the empty text)
+Right1(t) == Right(t, 1)
 
 \* ---- wildcard matching: ? one character, * any run, ~ makes the next ? * ~ literal; case-insensitive ----
 RECURSIVE MatchPrefix(_, _, _, _)
